@@ -53,7 +53,9 @@ def configs(tier, seed):
             dict(name="train interaction R=%d" % R, h="train", R=R, model="inter"),
             dict(name="refuse sparse_combo", h="refuse", R=R, model="combo"),
             dict(name="refuse interaction", h="refuse", R=R, model="inter"),
-            dict(name="pipeline R=%d" % R, h="pipeline", R=R, chunks=2 if q else 3)]
+            dict(name="pipeline R=%d" % R, h="pipeline", R=R, chunks=2 if q else 3),
+            dict(name="pipeline interaction-model samples R=%d" % R, h="pipeline", R=R, chunks=1 if q else 2, thetas="inter"),
+            dict(name="pipeline interaction-model samples, incomplete effect table R=%d" % R, h="pipeline", R=R, chunks=1, thetas="inter_partial")]
 
 
 def fixtures(cfg):
@@ -195,7 +197,7 @@ class _Out:
     pass
 
 
-def _pipeline_once(ctx, cfg, masked_value, pstat, n_chunks, batch_idx, obs_sym):
+def _pipeline_once(ctx, cfg, masked_value, pstat, n_chunks, batch_idx, obs_sym, kind="combo"):
     np = ctx.np
     rows = _rows(cfg)
     R = len(rows)
@@ -210,8 +212,24 @@ def _pipeline_once(ctx, cfg, masked_value, pstat, n_chunks, batch_idx, obs_sym):
     gd = ctx.mod("batchie.scoring.gaussian_dbal")
     nS, nT = screen.sample_space_size, screen.treatment_space_size
     holder = core.ThetaHolder(n_thetas=3)
+    sci = ctx.mod("batchie.models.sparse_combo_interaction")
+    # a complete single-effect table (every sample x every treatment incl. control), as training on full data yields
+    lookup = {}
+    sid_, tid_ = screen.sample_ids.tolist(), screen.treatment_ids.tolist()
+    single_agent = {(int(sid_[i]), int(max(tid_[i]))) for i in range(R) if sorted(int(x) == -1 for x in tid_[i]) == [False, True]}
+    for s_ in range(nS):
+        lookup[(s_, -1)] = 1.0
+        for k in range(nT):
+            if kind == "inter_partial" and (s_, k) in single_agent:
+                continue  # single-agent effects never observed during training (their only measurements sit on the screen, possibly masked)
+            lookup[(s_, k)] = 0.3 + 0.05 * k + 0.1 * s_
     for t in range(3):
         f = 0.1 * (t + 1)
+        if kind.startswith("inter"):
+            holder.add_theta(sci.SparseDrugComboInteractionMCMCSample(
+                W=np.array([[f * (s + 1)] for s in range(nS)], dtype=float), V2=np.array([[f + 0.1 * k] for k in range(nT)], dtype=float),
+                precision=1.0 + t, single_effect_lookup=lookup))
+            continue
         holder.add_theta(sc.SparseDrugComboMCMCSample(
             W=np.array([[f * (s + 1)] for s in range(nS)], dtype=float), W0=np.array([0.2 * f] * nS, dtype=float),
             V2=np.array([[f + 0.1 * k] for k in range(nT)], dtype=float), V1=np.array([[0.3 - f * k] for k in range(nT)], dtype=float),
@@ -223,7 +241,9 @@ def _pipeline_once(ctx, cfg, masked_value, pstat, n_chunks, batch_idx, obs_sym):
     out.selected = None
     if unobs is None:
         return out
-    parts = [dcm.calculate_pairwise_distance_matrix_on_predictions(holder, mse.MSEDistance(sigmoid=True), unobs, chunk_index=c, n_chunks=2)
+    # the distance step predicts on the whole screen when asked to (masked single-agent rows included)
+    target = screen if kind.startswith("inter") else unobs
+    parts = [dcm.calculate_pairwise_distance_matrix_on_predictions(holder, mse.MSEDistance(sigmoid=True), target, chunk_index=c, n_chunks=2)
              for c in range(2)]
     dm = dcm.ChunkedDistanceMatrix.concat(parts)
     out.dist = dm.to_dense().tolist()
@@ -253,16 +273,33 @@ def h_pipeline(ctx, cfg):
     n_chunks = int(ctx.int("n_chunks", 1, cfg["chunks"]))
     batch_idx = int(ctx.int("batch", -1, 1))
     obs_sym = [0.3 + 0.1 * i for i in range(R)]
+    kind = cfg.get("thetas", "combo")
     if ctx.symbolic:
         try:
-            out = _pipeline_once(ctx, cfg, lambda i: Poison(), pstat, n_chunks, batch_idx, obs_sym)
+            out = _pipeline_once(ctx, cfg, lambda i: Poison(), pstat, n_chunks, batch_idx, obs_sym, kind)
+        except KeyError:
+            # the interaction model refuses to predict a (sample, treatment) whose single-agent effect it never saw:
+            # a refusal that does not depend on masked values
+            ctx.prove(kind == "inter_partial", "prediction refused for an unseen single-agent effect, independently of masked values")
+            return "refused"
         except PoisonUsed:
             ctx.fail("a masked observation value was read while computing distances, scores or the selection",
                      key="masked value read by the distance / scoring / selection path")
         ctx.prove(True, "distance matrix, plate scores and selected plate computed without reading any masked value")
         return out.selected
-    a = _pipeline_once(ctx, cfg, lambda i: 0.123, pstat, n_chunks, batch_idx, obs_sym)
-    b = _pipeline_once(ctx, cfg, lambda i: float("nan") if i % 2 else -7.0, pstat, n_chunks, batch_idx, obs_sym)
+    def once(mv):
+        try:
+            return _pipeline_once(ctx, cfg, mv, pstat, n_chunks, batch_idx, obs_sym, kind)
+        except KeyError:
+            o = _Out()
+            o.dist, o.scores, o.selected = "refused", [], "refused"
+            return o
+    a = once(lambda i: 0.123)
+    b = once(lambda i: float("nan") if i % 2 else 0.77)
+    if a.dist == "refused" or b.dist == "refused":
+        ctx.prove(a.dist == b.dist, "distance matrix, plate scores and selected plate computed without reading any masked value",
+                  key="masked value read by the distance / scoring / selection path")
+        return "refused"
     ctx.observe("dist", a.dist)
     ctx.observe("sel", a.selected)
     same = (a.dist is None and b.dist is None) or (a.dist is not None and b.dist is not None and all_eq(ctx, a.dist, b.dist))
